@@ -480,6 +480,70 @@ def run_uniform(ctx, drv, case):
     return ck.ok
 
 
+# ------------------------------------------------------------------ part C2: uniform right-hand side, both sides of the threshold
+def gen_urhs(ctx, thorough):
+    r = ctx.rng
+    big = r.random() < 0.6
+    if big:
+        lv = r.choice([[8], [4, 4], [4, 4], [5, 3], [3, 5], [3, 3, 3], [2, 3, 4]])
+    else:
+        lv = r.choice([[3], [2, 2], [3, 2], [4, 3], [2, 2, 2], [1, 2, 3], [7]])
+    dim = len(lv)
+    M = r.choice([8, 13, 16, 32])
+    data = c16.gen_data(r, dim, c16.uniform_stripes(lv), M, res=r.choice([16, 64, 128]))
+    return {"kind": "urhs", "dim": dim, "lv": lv, "lam": "0", "lumped": False,
+            "classes": [r.choice([-1, 1]) for _ in range(M)] if r.random() < 0.8 else None,
+            "data": [[frac_str(c) for c in x] for x in data]}
+
+
+def run_urhs(ctx, drv, case):
+    """uniform `calculate_B` with class labels below and above 200 points: the branch the code takes vs. the independent signed
+    sample mean, vs. both model paths, and vs. the OTHER implementation's computation carried out with the implementation's own
+    vectorised hat routine on the same grid (`hat_function_in_support_completely_vectorized` over all hats = the small-grid branch)"""
+    ck = c16.Checker(ctx, drv)
+    try:
+        drv16 = getattr(ctx, "_drv16", None)
+        if drv16 is None:
+            drv16 = ctx.driver("drv_c16")
+            ctx._drv16 = drv16
+        lv, dim = case["lv"], case["dim"]
+        data = [[F(c) for c in x] for x in case["data"]]
+        classes = case["classes"]
+        M = len(data)
+        signs = [F(c) for c in classes] if classes is not None else [F(1)] * M
+        sg = fv(signs) if classes is not None else "-"
+        stripes = c16.uniform_stripes(lv)
+        N = math.prod(2 ** l - 1 for l in lv)
+        big = N >= 200
+        op = c16.mk_uniform(data, dim, F(0), False, classes)
+        op.grid.setCurrentArea(np.zeros(dim), np.ones(dim), lv)
+        b = op.calculate_B(op.data, lv)
+        tags = {"kind": "urhs", "dim": dim, "classes": classes is not None, "grid_ge_200": big}
+        bref = b_ref(stripes, data, signs)
+        if not vec_near(b, bref, 1e-12):
+            k = next(i for i in range(N) if not near(b[i], bref[i], 1e-12))
+            ck.viol("uniform-rhs-is-signed-sample-mean", tags, case, {"entry": k, "impl": float(b[k]), "sample_mean": str(bref[k])})
+        ms = parse_vec(drv16.ask("bu small %s %s %s" % (fints(lv), fvs(data), sg)))
+        ml = parse_vec(drv16.ask("bu large %s %s %s" % (fints(lv), fvs(data), sg)))
+        if ms != ml:
+            ck.corr("model: uniform rhs small path vs large path", case, [str(v) for v in ms][:6], [str(v) for v in ml][:6])
+        if not vec_near(b, ml if big else ms, 1e-12):
+            ck.corr("calculate_B (uniform, %s branch)" % ("large" if big else "small"), case, np.asarray(b).tolist()[:8], [str(v) for v in ms][:8])
+        # the small-grid branch's computation on the same grid, with the implementation's own routine
+        hats = np.array(list(itertools.product(*[range(1, 2 ** l) for l in lv])), dtype=int)
+        unweighted = op.hat_function_in_support_completely_vectorized(hats, np.array(lv, dtype=int), op.data)
+        w = np.array([float(s) for s in signs]).reshape(M, 1)
+        b_small = np.sum(w * unweighted, axis=0) * (1 / M)
+        if not vec_near(b, b_small, 1e-12):
+            k = next(i for i in range(N) if not near(b[i], b_small[i], 1e-12))
+            ck.viol("uniform-rhs-paths-agree", tags, case, {"entry": k, "calculate_B": float(b[k]), "all_hats_vectorised": float(b_small[k])})
+        ctx.count("urhs_%s_%s" % ("ge_200" if big else "lt_200", "classes" if classes is not None else "noclasses"))
+    except Exception:
+        ck.ok = False
+        ctx.violation("exception", {"kind": "urhs"}, case, {"traceback": traceback.format_exc()[-1500:]})
+    return ck.ok
+
+
 # ------------------------------------------------------------------ part D: small-grid vs large-grid interpolation on the same grid
 def gen_interp(ctx, thorough):
     r = ctx.rng
@@ -616,7 +680,7 @@ def replay_keys(ctx, drv, case):
 MALFORMED = [("grid 0,1/2,1 1", "bad-op"), ("init 1 0 1/2 - 0;0", "assert"), ("init 2 0 1/2 - 0", "bad-op"), ("post", "bad-op"), ("foo", "bad-op"),
              ("interp small 0,1/2,1 1 2", "assert"), ("key 1/2,0,1 1/2,0", "bad-op")]
 
-RUNNERS = {"history": run_history, "twostep": run_twostep, "uniform": run_uniform, "interp": run_interp}
+RUNNERS = {"history": run_history, "twostep": run_twostep, "uniform": run_uniform, "interp": run_interp, "urhs": run_urhs}
 
 
 def run(ctx):
@@ -625,6 +689,7 @@ def run(ctx):
                 "boundary samples, with/without classes, lmin 1-2, lmax-lmin 1-2 (thorough: runs reaching component grids >= 200 points); "
                 "(twostep) two consecutive evaluations of 2-D grids with >= 200 points, the second a refinement of the first -- the right-hand-side reuse "
                 "branch; (uniform) StandardCombi schemes reuse on vs off; (interp) small-grid and large-grid interpolation branches on the same grid; "
+                "(urhs) uniform calculate_B with class labels on grids below and above 200 points vs signed sample mean / model / the other branch's computation; "
                 "(keys) cache keys vs entries on random hat pairs. A case is distinct by its full description; all are non-trivial")
     drv = ctx.driver("drv_c17")
     t_run = time.time()
@@ -635,9 +700,9 @@ def run(ctx):
             ctx.corr_break("C17/malformed-line", {"line": line}, {"model": got, "expected": want})
     run_keys(ctx, drv, 6 if not thorough else 40)
     budget = 75 if not thorough else 520
-    plan = (["history"] * 5 + ["twostep"] + ["interp"] * 3 + ["uniform"] * 2)
-    gens = {"history": gen_history, "twostep": gen_twostep, "uniform": gen_uniform, "interp": gen_interp}
-    n = 110 if not thorough else 1500
+    plan = (["history"] * 5 + ["twostep"] + ["interp"] * 3 + ["uniform"] * 2 + ["urhs"] * 2)
+    gens = {"history": gen_history, "twostep": gen_twostep, "uniform": gen_uniform, "interp": gen_interp, "urhs": gen_urhs}
+    n = 130 if not thorough else 1700
     k = 0
     while k < n and time.time() - t_run < budget:      # the budget counts from here, not from the Lean build
         kind = plan[k % len(plan)]
